@@ -2,7 +2,7 @@
 EXTENDS Benchmarks, Json, IOUtils
 TLog == ndJsonDeserialize(IOEnv.TRACE_FILE)
 VARIABLE k
-TInit == /\ k \in 1..Len(TLog) /\ part = TLog[k].part /\ ptype = TLog[k].ptype
+TInit == /\ k \in 1..Len(TLog) /\ part = TLog[k].part /\ ptype = TLog[k].ptype /\ reuse = TLog[k].reuse
          /\ hist = [i \in 1..Len(TLog[k].hist) |-> [age |-> TLog[k].hist[i][1], val |-> TLog[k].hist[i][2]]]
          /\ lme = [ages |-> TLog[k].lme.ages, ys |-> TLog[k].lme.ys, b0 |-> TLog[k].lme.b0, b1 |-> TLog[k].lme.b1,
                    c11 |-> TLog[k].lme.c11, c12 |-> TLog[k].lme.c12, c22 |-> TLog[k].lme.c22, slope |-> TLog[k].lme.slope]
@@ -15,6 +15,7 @@ Conforms ==
    /\ part = "constant" => (/\ RatEq(Rec.value, ConstantExpected)
                             /\ Rec.repeated_at_every_age)            \* the prediction is repeated at every requested age
    /\ part = "lme" => (/\ RatEq(Rec.re0, LmeExpected[1]) /\ RatEq(Rec.re1, LmeExpected[2])
-                       /\ Rec.trajectory_is_line)                   \* X (beta + b): a straight line in age
+                       /\ Rec.trajectory_is_line                    \* X (beta + b): a straight line in age
+                       /\ Rec.repeat_same)                          \* asked again (estimate, personalize): the same answers
    /\ part = "lme_ref" => Rec.matches_reference_library              \* personalised effects = statsmodels' conditional means
 =============================================================================
